@@ -480,14 +480,14 @@ func genC06(c *Ctx) {
 	}
 	for k := 0; k < c.Budget && !c.Exhausted(); k++ {
 		mode := []CoordMode{CoordSmallInt, CoordSmallInt, CoordInt, CoordHalf, CoordFloat}[r.Intn(5)]
-		o := GenOpts{Mode: mode, MaxPts: 5, MaxDepth: 3, TopNil: true}
+		o := GenOpts{Mode: mode, MaxPts: 5, MaxDepth: 3, TopNil: true, InnerNil: true}
 		g := genGeom(r, o, 0)
-		c.Case("geom", gs(g))
+		c.Case("geom", gsN(g))
 		h := mutateGeom(c, g)
 		if r.Intn(4) == 0 {
 			h = genGeom(r, o, 0)
 		}
-		c.Case("pair", gs(g)+" "+gs(h))
+		c.Case("pair", gsN(g)+" "+gsN(h))
 		b1, b2, b3 := genBoundVal(c, mode), genBoundVal(c, mode), genBoundVal(c, mode)
 		p := genPoint(r, mode)
 		if r.Intn(3) == 0 { // a point on the boundary / corner of b1
